@@ -167,7 +167,7 @@ class Gen:
                 pos, kw = self.kv(parts[2:])
                 mod.run(self, kw, None, 'specs/' + spec_rel, i + 1)
                 i += 1
-            elif d in ('fn', 'arm', 'closure', 'loopbody', 'fnprefix', 'trait', 'implall'):
+            elif d in ('fn', 'arm', 'closure', 'loopbody', 'fnprefix', 'trait', 'implall', 'macro'):
                 j = i + 1
                 block = []
                 while j < len(lines) and lines[j].strip() != '//@end':
@@ -193,6 +193,25 @@ class Gen:
 
     def do_item(self, rel, kw, name, opts):
         src = self.source(rel)
+        if kw == 'macrocall':
+            n = 0
+            k = 0
+            while k < len(src.toks) - 2:
+                if src.is_id(k, name) and src.is_p(k + 1, '!') and src.toks[k + 2].kind == 'punct' and src.toks[k + 2].text in '({' \
+                        and not (k > 0 and src.is_id(k - 1, 'macro_rules')):
+                    # only invocations at item level (depth 0)
+                    e = src.match[k + 2]
+                    if src.is_p(e + 1, ';'):
+                        e += 1
+                    depth0 = not any(a < k < b for a, b in src.match.items() if a < b and src.toks[a].text == '{')
+                    if depth0:
+                        self.emit(src.span_text(k, e), 'code', rel, src.toks[k].line)
+                        n += 1
+                    k = e
+                k += 1
+            if n == 0:
+                raise LostAnchor('no invocation of %s! in %s' % (name, rel))
+            return
 
         def walk(lo, hi):
             for it in src.items(lo, hi):
@@ -706,6 +725,96 @@ class Gen:
             self.emit(extra, 'spec', specfile, specline, False)
         self.emit_methods(src, rel, it, rules, kw['as'], specfile, specline, in_trait=in_trait)
         self.emit('}', 'spec', specfile, specline, False)
+
+    def do_macro(self, parts, block, specfile, specline):
+        """R9: a `macro_rules!` definition that generates methods is copied verbatim, its transcribers wrapped in
+        `verus! { }` and contracts (which may use the macro's own metavariables) inserted after the signatures of
+        the functions it generates.  Invocations are copied verbatim by `//@item <src> macrocall <name>`."""
+        pos, kw = self.kv(parts)
+        rel, name = pos[0], pos[1]
+        src = self.source(rel)
+        it = None
+        for cand in src.items():
+            if cand.kw == 'macro_rules' and cand.name == name:
+                it = cand
+        if it is None:
+            raise LostAnchor('macro_rules %s not found in %s' % (name, rel))
+        extra, rules = self.method_rules(block)
+        prefix = kw['as']
+        # transcribers: every `=> { ... }` at depth 1 of the macro body
+        inserts = []   # (offset, text, is_contract, fnname)
+        lo, hi = it.body_open, src.match[it.body_open]
+        k = lo + 1
+        nfn = 0
+        while k < hi:
+            if src.is_p(k, '=') and src.is_p(k + 1, '>') and src.is_p(k + 2, '{'):
+                t_open, t_close = k + 2, src.match[k + 2]
+                inserts.append((src.toks[t_open].end, ' verus! { ', None))
+                inserts.append((src.toks[t_close].start, ' } ', None))
+                j = t_open + 1
+                while j < t_close:
+                    if src.is_id(j, 'fn'):
+                        # name: `$x` or ident
+                        if src.is_p(j + 1, '$'):
+                            fname = '$' + src.toks[j + 2].text
+                            p = j + 3
+                        else:
+                            fname = src.toks[j + 1].text
+                            p = j + 2
+                        while not src.is_p(p, '('):
+                            p += 1
+                        close = src.match[p]
+                        b = close + 1
+                        ret_lo = ret_hi = None
+                        if src.is_p(b, '-') and src.is_p(b + 1, '>'):
+                            ret_lo = b + 2
+                            q = ret_lo
+                            while not src.is_p(q, '{'):
+                                if src.toks[q].kind == 'punct' and src.toks[q].text in '([':
+                                    q = src.match[q]
+                                q += 1
+                            ret_hi = q - 1
+                            body_open = q
+                        else:
+                            q = b
+                            while not src.is_p(q, '{'):
+                                q += 1
+                            body_open = q
+                        contract = ''
+                        for (rx, c, a) in rules:
+                            if rx.match(fname):
+                                contract = c
+                                # attributes go before the visibility / `fn` keyword
+                                st = j
+                                while st - 1 > t_open and (src.is_id(st - 1, 'pub') or src.is_p(st - 1, ')') and src.is_id(src.match[st - 1] - 1, 'pub')):
+                                    st = st - 1 if src.is_id(st - 1, 'pub') else src.match[st - 1] - 1
+                                for at in a:
+                                    inserts.append((src.toks[st].start, '#[%s] ' % at, None))
+                                break
+                        if ret_lo is not None:
+                            inserts.append((src.toks[ret_lo].start, '(r: ', None))
+                            inserts.append((src.toks[ret_hi].end, ')', None))
+                        if contract.strip():
+                            inserts.append((src.toks[body_open].start, '\n' + contract + '\n', fname))
+                        nfn += 1
+                        j = src.match[body_open]
+                    j += 1
+                k = t_close
+            k += 1
+        if nfn == 0:
+            raise LostAnchor('macro %s generates no functions' % name)
+        oblig = prefix
+        self.begin_block(oblig, 'macro', rel, src, it.sig_start, it.end, 'macro_rules! ' + name)
+        inserts.sort(key=lambda x: x[0])
+        cur = src.toks[it.sig_start].start
+        end = src.toks[it.end].end
+        for off, txt, _ in inserts:
+            if off > cur:
+                self.emit(self.clean(src.text[cur:off]), 'code', rel, src.line_of(cur))
+            self.emit(txt, 'spec', specfile, specline, False)
+            cur = off
+        self.emit(self.clean(src.text[cur:end]), 'code', rel, src.line_of(cur))
+        self.end_block()
 
     def do_fnprefix(self, parts, block, specfile, specline):
         """R3b: the statements of a function body before a given statement, as a function of their own."""
